@@ -272,26 +272,46 @@ macro "pres_crawl" : tactic => `(tactic| repeat' (first
 
 macro "inf_crawl" ht:ident hr:ident : tactic => `(tactic| repeat' (first
   | contradiction
-  | with_reducible exact $ht _
+  | with_reducible exact $ht _ (by assumption)
   | with_reducible exact EqOn.of_readOnly (ReadOnly.pure _)
   | with_reducible exact EqOn.stop_bind
   | (with_reducible apply EqOn.bind $hr; intro right; apply EqOn.of_pres; pres_crawl)
   | split))
 
+/-- `bind` when the continuations are only related for the results the first computation can have -/
+theorem EqOn.bind_post {s0 : St} {x x' : M α} {f f' : α → M β} {P : α → Prop} (hx : EqOn s0 x x')
+    (hP : ∀ st, Same s0 st → ∀ a, (run x st).1 = .ok a → P a)
+    (hf : ∀ a, P a → EqOn s0 (f a) (f' a)) : EqOn s0 (x >>= f) (x' >>= f') := by
+  intro st hs
+  obtain ⟨e, hs1⟩ := hx st hs
+  rw [run_bind, run_bind, ← e]
+  match h : run x st with
+  | (.ok a, st1) =>
+    simp only
+    rw [h] at hs1
+    exact hf a (hP st hs a (by rw [h])) st1 hs1
+  | (.error err, st1) =>
+    rw [h] at hs1
+    exact ⟨rfl, hs1⟩
+
+/-- what the hazard note of the infix case needs: the two left operands have the same name, or the left VALUE
+is no array (then the note is not reached) -/
+def LeftOk (L L' : Node) (left : Obj) : Prop := hazardBase L = hazardBase L' ∨ ∀ els, left ≠ .array els
+
 /-- the infix case for one setting of the three operator tests the evaluator makes (`and`, `or`, `|`): with them
 decided the unfolded body is small.  `$ha $ho $hb` are the hypotheses `(op == "AND") = …` etc. -/
-macro "inf_proof" s0:ident fuel:ident op:ident R:ident R':ident hop:ident ht:ident hl:ident hr:ident ha:ident ho:ident hb:ident : tactic => `(tactic| (
+macro "inf_proof" s0:ident fuel:ident op:ident L:ident L':ident R:ident R':ident hop:ident ht:ident hl:ident hr:ident hz:ident ha:ident ho:ident hb:ident : tactic => `(tactic| (
   rw [evalI, evalI]
   apply EqOn.get_bind; intro s hs
   refine EqOn.set_bind ?_ ?_
   · exact ⟨hs.1, hs.2.1, hs.2.2⟩
-  have htail : ∀ left : Obj, EqOn $s0
+  have htail : ∀ left : Obj, LeftOk $L $L' left → EqOn $s0
       (do let right ← eval $fuel $R
           if right.isError = true then pure right
           else match left with
             | Obj.array l => do
               let __do_lift ← get
-              noteHazard ($op == "PLUS" && decide (l.length > __do_lift.cfg.maxSmallArray)) "large-array-append-shares-capacity" ""
+              noteHazard ($op == "PLUS" && decide (l.length > __do_lift.cfg.maxSmallArray)) "large-array-append-shares-capacity" (hazardBase $L)
               evalInfixOp $op left right
             | x => evalInfixOp $op left right)
       (do let right ← eval $fuel $R'
@@ -299,17 +319,31 @@ macro "inf_proof" s0:ident fuel:ident op:ident R:ident R':ident hop:ident ht:ide
           else match left with
             | Obj.array l => do
               let __do_lift ← get
-              noteHazard ($op == "PLUS" && decide (l.length > __do_lift.cfg.maxSmallArray)) "large-array-append-shares-capacity" ""
+              noteHazard ($op == "PLUS" && decide (l.length > __do_lift.cfg.maxSmallArray)) "large-array-append-shares-capacity" (hazardBase $L')
               evalInfixOp $op left right
             | x => evalInfixOp $op left right) := by
-    intro left
+    intro left hleft
     apply EqOn.bind $hr; intro right
-    apply EqOn.of_pres
-    split
-    · exact Pres.of_readOnly (ReadOnly.pure _)
-    · split
-      · exact Pres.bind (Pres.of_readOnly ReadOnly.get) (fun _ => Pres.bind (pres_noteHazard _ _ _) (fun _ => Pres.of_readOnly (evalInfixOp_readOnly _ _ _)))
-      · exact Pres.of_readOnly (evalInfixOp_readOnly _ _ _)
+    cases hleft with
+    | inl hn =>
+      rw [hn]
+      apply EqOn.of_pres
+      split
+      · exact Pres.of_readOnly (ReadOnly.pure _)
+      · split
+        · exact Pres.bind (Pres.of_readOnly ReadOnly.get) (fun _ => Pres.bind (pres_noteHazard _ _ _) (fun _ => Pres.of_readOnly (evalInfixOp_readOnly _ _ _)))
+        · exact Pres.of_readOnly (evalInfixOp_readOnly _ _ _)
+    | inr hna =>
+      split
+      · exact EqOn.of_readOnly (ReadOnly.pure _)
+      · split
+        · exact absurd rfl (hna _)
+        · exact EqOn.of_readOnly (evalInfixOp_readOnly _ _ _)
+  have hP : ∀ st, Same $s0 st → ∀ a, (run (eval $fuel $L) st).1 = .ok a → LeftOk $L $L' a := by
+    intro st hst a ha'
+    cases $hz:ident with
+    | inl h => exact Or.inl h
+    | inr h => exact Or.inr (fun els he => h st hst els (by rw [ha', he]))
   simp (config := { zeta := true, zetaHave := true }) only [$hop:ident, $ha:ident, $ho:ident, $hb:ident, Bool.false_eq_true, if_false, if_true]
   try rw [$ht:ident]
   split
@@ -317,56 +351,99 @@ macro "inf_proof" s0:ident fuel:ident op:ident R:ident R':ident hop:ident ht:ide
     by_cases hk : s.steps ≥ k
     · rw [if_pos hk, if_pos hk]; exact EqOn.of_readOnly (ReadOnly.pure _)
     · rw [if_neg hk, if_neg hk]
-      apply EqOn.bind $hl; intro left
+      refine EqOn.bind_post $hl hP ?_; intro left hleft
       inf_crawl htail $hr
-  · apply EqOn.bind $hl; intro left
+  · refine EqOn.bind_post $hl hP ?_; intro left hleft
     inf_crawl htail $hr))
 
 section
 variable {s0 : St} {fuel : Nat} {op : String} {L L' R R' : Node}
 
+/-- the side condition of the infix case: same name on the left, or the left value is never an array -/
+def HazOk (s0 : St) (fuel : Nat) (L L' : Node) : Prop :=
+  hazardBase L = hazardBase L' ∨ ∀ st, Same s0 st → ∀ els, (run (eval fuel L) st).1 ≠ .ok (.array els)
+
 theorem evalI_inf_eqOn_and (hop : (op == "ASSIGN" || op == "DEFINE") = false)
     (ht : (R.tokType == "LPAREN") = (R'.tokType == "LPAREN"))
-    (hl : EqOn s0 (eval fuel L) (eval fuel L')) (hr : EqOn s0 (eval fuel R) (eval fuel R'))
+    (hl : EqOn s0 (eval fuel L) (eval fuel L')) (hr : EqOn s0 (eval fuel R) (eval fuel R')) (hz : HazOk s0 fuel L L')
     (ha : (op == "AND") = true) (ho : (op == "OR") = false) (hb : (op == "BITOR") = false) :
     EqOn s0 (evalI (fuel+1) (.inf op L R)) (evalI (fuel+1) (.inf op L' R')) := by
-  inf_proof s0 fuel op R R' hop ht hl hr ha ho hb
+  inf_proof s0 fuel op L L' R R' hop ht hl hr hz ha ho hb
 
 theorem evalI_inf_eqOn_or (hop : (op == "ASSIGN" || op == "DEFINE") = false)
     (ht : (R.tokType == "LPAREN") = (R'.tokType == "LPAREN"))
-    (hl : EqOn s0 (eval fuel L) (eval fuel L')) (hr : EqOn s0 (eval fuel R) (eval fuel R'))
+    (hl : EqOn s0 (eval fuel L) (eval fuel L')) (hr : EqOn s0 (eval fuel R) (eval fuel R')) (hz : HazOk s0 fuel L L')
     (ha : (op == "AND") = false) (ho : (op == "OR") = true) (hb : (op == "BITOR") = false) :
     EqOn s0 (evalI (fuel+1) (.inf op L R)) (evalI (fuel+1) (.inf op L' R')) := by
-  inf_proof s0 fuel op R R' hop ht hl hr ha ho hb
+  inf_proof s0 fuel op L L' R R' hop ht hl hr hz ha ho hb
 
 theorem evalI_inf_eqOn_bitor (hop : (op == "ASSIGN" || op == "DEFINE") = false)
     (ht : (R.tokType == "LPAREN") = (R'.tokType == "LPAREN"))
-    (hl : EqOn s0 (eval fuel L) (eval fuel L')) (hr : EqOn s0 (eval fuel R) (eval fuel R'))
+    (hl : EqOn s0 (eval fuel L) (eval fuel L')) (hr : EqOn s0 (eval fuel R) (eval fuel R')) (hz : HazOk s0 fuel L L')
     (ha : (op == "AND") = false) (ho : (op == "OR") = false) (hb : (op == "BITOR") = true) :
     EqOn s0 (evalI (fuel+1) (.inf op L R)) (evalI (fuel+1) (.inf op L' R')) := by
-  inf_proof s0 fuel op R R' hop ht hl hr ha ho hb
+  inf_proof s0 fuel op L L' R R' hop ht hl hr hz ha ho hb
 
 theorem evalI_inf_eqOn_other (hop : (op == "ASSIGN" || op == "DEFINE") = false)
     (ht : (R.tokType == "LPAREN") = (R'.tokType == "LPAREN"))
-    (hl : EqOn s0 (eval fuel L) (eval fuel L')) (hr : EqOn s0 (eval fuel R) (eval fuel R'))
+    (hl : EqOn s0 (eval fuel L) (eval fuel L')) (hr : EqOn s0 (eval fuel R) (eval fuel R')) (hz : HazOk s0 fuel L L')
     (ha : (op == "AND") = false) (ho : (op == "OR") = false) (hb : (op == "BITOR") = false) :
     EqOn s0 (evalI (fuel+1) (.inf op L R)) (evalI (fuel+1) (.inf op L' R')) := by
-  inf_proof s0 fuel op R R' hop ht hl hr ha ho hb
+  inf_proof s0 fuel op L L' R R' hop ht hl hr hz ha ho hb
 
 theorem evalI_inf_eqOn (hop : (op == "ASSIGN" || op == "DEFINE") = false)
     (ht : (R.tokType == "LPAREN") = (R'.tokType == "LPAREN"))
-    (hl : EqOn s0 (eval fuel L) (eval fuel L')) (hr : EqOn s0 (eval fuel R) (eval fuel R')) :
+    (hl : EqOn s0 (eval fuel L) (eval fuel L')) (hr : EqOn s0 (eval fuel R) (eval fuel R')) (hz : HazOk s0 fuel L L') :
     EqOn s0 (evalI (fuel+1) (.inf op L R)) (evalI (fuel+1) (.inf op L' R')) := by
   by_cases ha : (op == "AND") = true
   · have : op = "AND" := eq_of_beq ha
-    exact evalI_inf_eqOn_and hop ht hl hr ha (by subst this; decide) (by subst this; decide)
+    exact evalI_inf_eqOn_and hop ht hl hr hz ha (by subst this; decide) (by subst this; decide)
   · by_cases ho : (op == "OR") = true
     · have : op = "OR" := eq_of_beq ho
-      exact evalI_inf_eqOn_or hop ht hl hr (by simpa using ha) ho (by subst this; decide)
+      exact evalI_inf_eqOn_or hop ht hl hr hz (by simpa using ha) ho (by subst this; decide)
     · by_cases hb : (op == "BITOR") = true
-      · exact evalI_inf_eqOn_bitor hop ht hl hr (by simpa using ha) (by simpa using ho) hb
-      · exact evalI_inf_eqOn_other hop ht hl hr (by simpa using ha) (by simpa using ho) (by simpa using hb)
+      · exact evalI_inf_eqOn_bitor hop ht hl hr hz (by simpa using ha) (by simpa using ho) hb
+      · exact evalI_inf_eqOn_other hop ht hl hr hz (by simpa using ha) (by simpa using ho) (by simpa using hb)
 end
+
+/-- evaluating an integer literal never yields an array -/
+theorem eval_int_not_array (fuel : Nat) (v : Int64) (st : St) (els : List Obj) :
+    (run (eval fuel (.int v)) st).1 ≠ .ok (.array els) := by
+  have hI : ∀ (fuel : Nat) (st : St) (a : Obj), (run (evalI fuel (.int v)) st).1 = .ok a →
+      a = .int v ∨ a = err "context deadline exceeded" := by
+    intro fuel st a h
+    cases fuel with
+    | zero => rw [evalI] at h; cases h
+    | succ fuel =>
+      rw [evalI] at h
+      rw [run_bind, run_get] at h; simp only at h
+      rw [run_bind, run_set] at h; simp only at h
+      cases hd : st.cfg.deadlineAfter with
+      | none => rw [hd] at h; simp only [run_pure] at h; exact Or.inl (by cases h; rfl)
+      | some k =>
+        rw [hd] at h; simp only at h
+        split at h
+        · simp only [run_pure] at h; exact Or.inr (by cases h; rfl)
+        · simp only [run_pure] at h; exact Or.inl (by cases h; rfl)
+  cases fuel with
+  | zero => rw [eval]; intro h; cases h
+  | succ fuel =>
+    rw [eval]
+    simp (config := { zeta := true, zetaHave := true }) only
+    rw [run_bind, run_get]; simp only
+    split
+    · rw [run_bind, run_stop]; intro h; cases h
+    · rw [run_bind, run_set]; simp only
+      rw [run_bind]
+      match hr : run (evalI fuel (.int v)) { st with depth := st.depth + 1 } with
+      | (.error e, s1) => simp only; intro h; cases h
+      | (.ok a, s1) =>
+        simp only
+        have := hI fuel _ a (by rw [hr])
+        rw [run_bind, run_modify]; simp only
+        cases this with
+        | inl h => subst h; simp only [run_bind, run_pure]; intro h; cases h
+        | inr h => subst h; simp only [err, run_bind, run_pure]; intro h; cases h
 
 /-! ### the arithmetic fragment -/
 
@@ -458,7 +535,17 @@ theorem sim_arith (n : String) (idx : Nat) (v : Int64) (regs : Nat → Int64) (h
       exact evalI_pre_eqOn hb'.1 (ih r hb'.2).2
     | inf op l r =>
       simp only [substAll, inst]
-      exact evalI_inf_eqOn hb'.1 (tokType_paren regs n idx r) (ih l hb'.2.1).2 (ih r hb'.2.2).2
+      refine evalI_inf_eqOn hb'.1 (tokType_paren regs n idx r) (ih l hb'.2.1).2 (ih r hb'.2.2).2 ?_
+      -- the hazard note names the left operand: the same on both sides, except for the variable itself, whose
+      -- register side is an integer literal (never an array)
+      cases l with
+      | ident m =>
+        by_cases hm : (m == n) = true
+        · refine Or.inr (fun st _ els => ?_)
+          simp only [substAll, hm, if_true, inst]
+          exact eval_int_not_array fuel _ st els
+        · exact Or.inl (by simp only [substAll, hm, inst]; rfl)
+      | _ => exact Or.inl rfl
     | _ => exact absurd hb' (by simp [Arith])
 
 /-! ### the general statement (not proved) -/
